@@ -43,8 +43,12 @@ def followup(stage, lines, model, checked, release, tier, rng):
                 msg = R(24)
                 _st["keys"][s] = (pk, sk, msg)
                 n = 40 if tier == "quick" else 400
-                for kind in ("z-over", "later-accept", "z-near"):
-                    L.append("@model forge %s %s %s %s %d" % (s, kind, sk, K.hx(msg), n if kind != "z-near" else n // 2))
+                for kind in ("z-over", "z-over-min", "later-accept", "z-near"):
+                    L.append("@model forge %s %s %s %s %d" % (s, kind, sk, K.hx(msg), n if kind not in ("z-near",) else n // 2))
+                # more keys/messages for the closest-above-the-bound forgery: a verifier with a slightly loosened bound accepts only those
+                for _ in range(3 if tier == "quick" else 12):
+                    m2 = R(16)
+                    L.append("@model forge %s z-over-min %s %s %d" % (s, sk, K.hx(m2), n))
                 L.append(K.sign_raw(s, msg, sk, 0))
         return L
     if stage == 2:
@@ -52,10 +56,11 @@ def followup(stage, lines, model, checked, release, tier, rng):
             if ln.startswith("@model forge ") and m.startswith("ok ") and m != "ok none":
                 t = ln.split()
                 s, kind = t[2], t[3]
-                pk, sk, msg = _st["keys"][s]
+                pk, sk, _m0 = _st["keys"][s]
+                msg = K.unhx(t[5])
                 sig = m.split()[3]
                 v = K.verify_raw(s, sig, msg, pk)
-                _st["cases"].append((v, kind != "z-over", kind + " zmax=" + m.split()[2]))
+                _st["cases"].append((v, not kind.startswith("z-over"), kind + " zmax=" + m.split()[2]))
                 L.append(v)
             elif "::signature " in ln and c.startswith("ok "):
                 s = ln.split("::")[1]
